@@ -157,6 +157,19 @@ func (ce *clauseEnv) tr(x *SX, bound map[string]bool, old bool) *SX {
 		return out
 	case "_":
 		return x
+	case "heap":
+		// (heap Type.Field): the field's array itself (current heap, or the entry heap under (old ...))
+		if len(x.List) == 2 {
+			key := x.List[1].Atom
+			if ft, ok := ce.e.w.Fields[key]; ok {
+				arr := ce.e.heapArr(ce.st, key, ft)
+				if old {
+					arr = ce.st.heap0[key]
+				}
+				return atom(arr)
+			}
+		}
+		panic(unsupported{"(heap X): unknown field " + x.String(), token.NoPos})
 	}
 	if ft, ok := ce.e.w.Fields[h]; ok && len(x.List) == 2 {
 		hp := ce.heap
